@@ -10,28 +10,41 @@ namespace {
 
 static uint64_t ncases(Ctx& c) { return (uint64_t)c.param_int("sequences", c.tier == "thorough" ? 2000000 : 60000); }
 
+struct Backend;
+static std::set<Backend*>& backends() { static std::set<Backend*> s; return s; }     // every backend alive in this process
 struct Backend {
+    uint64_t pad = 0;                   // the manager is deliberately NOT the first member: userData must be used as given
     UriMemoryManager mm;
     std::map<char*, size_t> live;       // backend's own blocks
-    uint64_t mallocs = 0, frees = 0, foreign_free = 0, double_free = 0; Str note;
+    uint64_t mallocs = 0, frees = 0, foreign_free = 0, double_free = 0, wrong_manager = 0; Str note;
+    // A backend finds its state through the manager it is called with, like any arena allocator does: the library has to call
+    // backend->malloc(backend, ...) / backend->free(backend, ...), not hand it the completed wrapper or anything else
+    static Backend* self(UriMemoryManager* m, const char* fn) {
+        for (Backend* k : backends()) if (m == &k->mm && m->userData == k) return k;
+        Backend* k = nullptr;
+        for (Backend* q : backends()) if (m->userData == (void*)&q->mm || m->userData == (void*)q) k = q;     // whose wrapper (or what else) was it?
+        if (!k) k = *backends().begin();
+        k->wrong_manager++; if (k->note.empty()) k->note = fmt("backend %s called with a manager argument that is not the backend itself", fn);
+        return k;
+    }
     std::set<char*> ever;               // for telling double free from foreign free
     long fail_at = 0; uint64_t calls = 0; uint64_t failed = 0; size_t live_bytes = 0;
     static const size_t LIMIT = (size_t)1 << 20, TOTAL = (size_t)1 << 22;   // refuses single requests above 1 MiB and more than 4 MiB in total
     static void* b_malloc(UriMemoryManager* m, size_t n) {
-        Backend* b = (Backend*)m->userData; b->calls++;
+        Backend* b = self(m, "malloc"); b->calls++;
         if (b->fail_at && (long)b->calls == b->fail_at) { b->failed++; errno = ENOMEM; return nullptr; }
         if (n > LIMIT || b->live_bytes + n > TOTAL) { b->failed++; errno = ENOMEM; return nullptr; }
         char* p = (char*)raw_malloc(n ? n : 1); if (!p) return nullptr;
         memset(p, 0xC7, n); b->live_bytes += n; b->live[p] = n; b->ever.insert(p); b->mallocs++; return p;
     }
     static void b_free(UriMemoryManager* m, void* q) {
-        Backend* b = (Backend*)m->userData; char* p = (char*)q;
+        Backend* b = self(m, "free"); char* p = (char*)q;
         auto it = b->live.find(p);
         if (it == b->live.end()) { if (b->ever.count(p)) b->double_free++; else b->foreign_free++; if (b->note.empty()) b->note = fmt("backend free(%p): %s", q, b->ever.count(p) ? "already released" : "never returned by backend malloc"); return; }
         memset(p, 0xDD, it->second); b->live_bytes -= it->second; b->live.erase(it); b->frees++; raw_free(p);
     }
-    Backend() { memset(&mm, 0, sizeof mm); mm.malloc = b_malloc; mm.free = b_free; mm.userData = this; }
-    ~Backend() { for (auto& kv : live) raw_free(kv.first); }
+    Backend() { memset(&mm, 0, sizeof mm); mm.malloc = b_malloc; mm.free = b_free; mm.userData = this; backends().insert(this); }
+    ~Backend() { for (auto& kv : live) raw_free(kv.first); backends().erase(this); }
 };
 
 struct Block { size_t size; unsigned char pat; };
@@ -100,7 +113,7 @@ static void run_case(Ctx& c, uint64_t idx) {
             UriMemoryManager bad = be.mm; if (r.coin()) bad.malloc = nullptr; else bad.free = nullptr;
             int rcb = uriCompleteMemoryManager(&mm, &bad); c.evaluations++; c.count("refused_recompletions");
             if (rcb != URI_ERROR_MEMORY_MANAGER_INCOMPLETE) c.violation("C15", "alloc/incomplete-backend-accepted", fmt("re-completion rc=%d", rcb));
-            if (!mm.malloc || !mm.calloc || !mm.realloc || !mm.reallocarray || !mm.free || mm.userData != &be) { c.violation("C15", "alloc/refused-completion-damaged-the-manager", fmt("trace: %s", trace.c_str())); uriCompleteMemoryManager(&mm, &be.mm); }
+            if (!mm.malloc || !mm.calloc || !mm.realloc || !mm.reallocarray || !mm.free || mm.userData != (void*)&be.mm) { c.violation("C15", "alloc/refused-completion-damaged-the-manager", fmt("trace: %s", trace.c_str())); uriCompleteMemoryManager(&mm, &be.mm); }
         }
         int op = r.below(10); c.stage((uint64_t)st);
         bool haveLive = !live.empty();
@@ -180,6 +193,7 @@ static void run_case(Ctx& c, uint64_t idx) {
             uint64_t bf = be.frees, bm = be.mallocs; mm.free(&mm, nullptr); c.evaluations++;
             if (be.frees != bf || be.mallocs != bm || be.foreign_free || be.double_free) c.violation("C15", "alloc/free-null-did-something", trace);
         }
+        if (be.wrong_manager) { c.violation("C15", "alloc/backend-called-with-foreign-manager", be.note + " trace: " + trace); be.wrong_manager = 0; be.note.clear(); }
         if (be.foreign_free || be.double_free) { c.violation("C15", be.double_free ? "alloc/backend-block-released-twice" : "alloc/backend-free-of-foreign-pointer", be.note + " trace: " + trace); be.foreign_free = be.double_free = 0; be.note.clear(); }
         if (st % 8 == 7) check_all("periodic");
     }
@@ -187,6 +201,7 @@ static void run_case(Ctx& c, uint64_t idx) {
     // the caller frees everything: nothing may stay allocated in the backend
     for (auto& kv : live) mm.free(&mm, kv.first);
     if (!be.live.empty()) c.violation("C15", "alloc/backend-blocks-outstanding-after-free-all", fmt("%zu block(s); trace: %s", be.live.size(), trace.c_str()));
+    if (be.wrong_manager) c.violation("C15", "alloc/backend-called-with-foreign-manager", be.note + " trace: " + trace);
     if (be.foreign_free || be.double_free) c.violation("C15", be.double_free ? "alloc/backend-block-released-twice" : "alloc/backend-free-of-foreign-pointer", be.note);
     c.count("backend_failures_injected", be.failed);
     c.distinct(hash_str(trace));
